@@ -117,6 +117,7 @@ pub fn run(env: &Env, prop: &str, tier: &str) -> i32 {
         fuzz_stats = fo.stats;
     }
     rep.notes.push(format!("libfuzzer: {fuzz_stats}"));
+    let mut extra_decls: Vec<vmodel::Decl> = vec![];
     // the other setting of `debug-assertions` (quick: the corpus above has them on, thorough: off) on a
     // stratified sample of the corpus: code behind `debug_assert!` / `cfg!(debug_assertions)` is part of what
     // a user gets in one of the two kinds of build
@@ -155,6 +156,36 @@ pub fn run(env: &Env, prop: &str, tier: &str) -> i32 {
             }
             v.actual.push_str(marker);
             rep.viols.push(v);
+        }
+    }
+    if prop == "C09" {
+        // declarations whose acceptance is not asserted (Arbitrary next to what the macro says it cannot generate
+        // for): whatever the tree under test accepts of them is held to the property
+        let opt = vmodel::catalogue::c09_optional_decls();
+        extra_decls.extend(opt.iter().cloned());
+        match build_rt(env, &env.work.join("gen/rtopt"), "optcorpus", &opt, false) {
+            Ok(ob) => {
+                let accepted = opt.len() - ob.rejected.len();
+                rep.notes.push(format!("optional declarations (Arbitrary with a `with` sanitizer + validation, predicate, regex, custom validation): {} generated, {accepted} accepted by this tree", opt.len()));
+                *rep.classes.entry("optional-declaration-rejected-by-the-tree".into()).or_insert(0) += ob.rejected.len() as u64;
+                if accepted > 0 {
+                    match run_harness(env, &ob.bins, prop, "quick", &[]) {
+                        Ok(orep) => {
+                            rep.evaluations += orep.evaluations;
+                            rep.nontrivial += orep.nontrivial;
+                            rep.viols.extend(orep.viols);
+                        }
+                        Err(e) => {
+                            eprintln!("INCONCLUSIVE: {e}");
+                            return 2;
+                        }
+                    }
+                }
+            }
+            Err(e) => {
+                eprintln!("INCONCLUSIVE: {e}");
+                return 2;
+            }
         }
     }
     if prop == "C11" {
@@ -224,6 +255,8 @@ pub fn run(env: &Env, prop: &str, tier: &str) -> i32 {
             });
         }
     }
+    let mut decls = decls;
+    decls.extend(extra_decls);
     finish(env, prop, tier, &decls, &built, rep, t0)
 }
 
